@@ -193,6 +193,9 @@ func registerIntrinsics(M map[string]Model) {
 		if b == nil {
 			return m.ctx.Const(0, 64)
 		}
+		if b.sizeTerm != nil {
+			return b.sizeTerm
+		}
 		return m.ctx.Const(uint64(b.size), 64)
 	})
 	I("BlockNoScan", func(m *Machine, fr *Frame, a []Value) Value {
